@@ -38,10 +38,17 @@ TracePop ==
   /\ obs' = Append(obs, [op |-> "pop", res |-> Trace[l].res])
   /\ UNCHANGED conf
 
+TraceTick ==
+  /\ Trace[l].op = "tick"
+  /\ q' = [q EXCEPT !.aged = TRUE]
+  /\ hist' = Append(hist, [op |-> "tick"])
+  /\ obs' = Append(obs, [op |-> "tick"])
+  /\ UNCHANGED conf
+
 TraceNext ==
   /\ l <= Len(Trace)
   /\ l' = l + 1
-  /\ (TraceReset \/ TracePush \/ TracePop)
+  /\ (TraceReset \/ TracePush \/ TracePop \/ TraceTick)
 
 TraceSpec == TraceInit /\ [][TraceNext]_tvars
 
